@@ -669,6 +669,7 @@ func c06Scenarios(tier string) []*ConcScenario {
 		{R(1)},
 		{P(0, 3), opF},
 		{P(4, 3), opF, P(0, 3), opF},
+		{P(0, 3), P(4, 3), opF},
 	}
 	cfgs := []Config{cfg("mh", false, 8, 1, 1)}
 	bound := 2
